@@ -54,6 +54,50 @@ def endName : MultipartSpec.End → String
 def termName : Terminal → String
   | .ok => "ok" | .incomplete => "incomplete" | .underlying => "underlying" | .invalidFormat => "invalid"
 
+/-- classification only: where the FIRST part of the form stops the one-shot parse (branch names of `try_parse`) -/
+def whyFirstPart (b d : Bytes) : String :=
+  match firstLines b d with
+  | .inl .needMore => "firstline-partial"
+  | .inl _ => "firstline-bad"
+  | .inr slice =>
+    match parseHeaders slice with
+    | .more => "hdr-partial"
+    | .error => "hdr-error"
+    | .complete rest hdrs =>
+      match lastHeader nameCD hdrs none with
+      | none => "no-content-disposition"
+      | some cdv =>
+        match parseCD cdv with
+        | none => "cd-grammar"
+        | some (_, none) =>
+          match splitTo (dashBoundary b) rest with
+          | none => "field-no-delimiter"
+          | some (ans, _) => if utf8Valid (ans.take (ans.length - 2)) then "later-part" else "field-nonutf8"
+        | some (_, some _) =>
+          match lastHeader nameCT hdrs none with
+          | none => "file-no-content-type"
+          | some ctv => if utf8Valid ctv then "file" else "file-ctype-nonutf8"
+
+/-- classification only: did the file stream ever enter state 3 (a partial delimiter carried over a frame edge)? -/
+def usedCarryRead (pat : Bytes) : Bytes → List (Option Bytes) → Bool
+  | _, [] => false
+  | _, none :: _ => false
+  | carry, some f :: fs =>
+    match scan pat (carry ++ f) with
+    | .found _ => false
+    | .carry _ _ => true
+    | .all _ => usedCarryRead pat [] fs
+
+def usedCarry (b : Bytes) (frames : List (Option Bytes)) : Bool :=
+  match accumulate b [] frames with
+  | .parsed _ _ _ rest fs =>
+    if rest = [] then usedCarryRead (crlfPat b) [] fs
+    else match scan (crlfPat b) rest with
+      | .found _ => false
+      | .carry _ _ => true
+      | .all _ => usedCarryRead (crlfPat b) [] fs
+  | _ => false
+
 def judgeMp (id : String) (ins outs : List String) : String :=
   match ins, outs with
   | [bH, frH, _sched, lkH, expflag, expF, expN, expC, expD], [parse, fieldsH, fnameH, ctypeH, chunksH, fterm, foundH] =>
@@ -118,7 +162,7 @@ def judgeMp (id : String) (ins outs : List String) : String :=
           disagree id ("\t".intercalate modelOut |>.replace "\t" " ") ("\t".intercalate outs |>.replace "\t" " ")
         else
           let nData := (frames.takeWhile Option.isSome).length
-          let multi := if nData > 1 then "-nframes" else "-1frame"
+          let multi := (if nData > 1 then "-nframes" else "-1frame") ++ (if usedCarry b frames then "-state3" else "")
           let dup := match m.form with
             | some (f, _, _) => if (f.map (·.1)).eraseDups.length < f.length then "-dupnames" else ""
             | none => ""
@@ -128,7 +172,7 @@ def judgeMp (id : String) (ins outs : List String) : String :=
             | some _, _ => "ok-underlying" ++ multi
             | none, .underlying => "err-underlying"
             | none, _ => if err then "err-invalid-before-error" else
-                (match tryParse b d with | .invalid => "err-invalid-format" | _ => "err-invalid-eof")
+                (match tryParse b d with | .invalid => "err-invalid-format/" | _ => "err-invalid-eof/") ++ whyFirstPart b d
           agree id cls
       | _, _ => badline id
     | _, _, _, _, _, _, _, _ => badline id
